@@ -21,13 +21,15 @@ CONSTANTS
   AutoCkpt = TRUE
   Infos <- Infos2
   Info0 <- Info11
-  EndCauses = {"socket", "ok"}
+  EndCauses = {"socket", "statechanged", "ok"}
   Hold = FALSE
   AllowClose = TRUE
   Rollbacks = FALSE
   FailSaves = FALSE
   Focus = FALSE
   Record = TRUE
+  Marking = FALSE
+  WindAt = 41
   Gaps = {}
   Bugs = {}
   D = 55
